@@ -1,6 +1,7 @@
 // sc_lq.cpp - scenario "lq": LQ-IBE between a PKG, a sender and a receiver; caller's hash and
 // random callbacks are simulator-owned; master scalar, identities, keys and ciphertexts cross
 // the simulated store as bytes (C16; marshalling of LQ-IBE objects for C15/C17).
+#include <sys/mman.h>
 #include "core.hpp"
 #include "wkd_model.hpp"
 #include "wkd_wire.hpp"
@@ -108,6 +109,24 @@ struct LqRun {
         env.logf("LQENC id%zu len%zu r=%s", c.id, symlen, c.r.hexstr().c_str()); env.add_case(strf("lqenc len%zu f%zu", symlen, op.s.size()), !op.s.empty());
         cts.push_back(std::move(c));
     }
+    // ENCHUGE sseed id : a key length that does not fit 32 bits. The output buffer is address space only (mmap, no reserve); the hash stub
+    // records the request and writes 64 bytes. Encrypt and decrypt must both forward the length unchanged and hash the same bytes.
+    void op_enchuge(const Op& op) {
+        Id* d = pick_id(op.arg(1)); if (!d) return;
+        size_t symlen = ((size_t) 1 << 32) + 32 + (size_t) (op.arg(0) & 0xFF);
+        void* mem = mmap(nullptr, symlen + 4096, PROT_READ | PROT_WRITE, MAP_PRIVATE | MAP_ANONYMOUS | MAP_NORESERVE, -1, 0); if (mem == MAP_FAILED) { env.count("probe:huge_key_buffer_not_mapped"); return; }
+        Buf ct(R.sz(JV_SZ_LQ_CT)), sk(R.sz(JV_SZ_LQ_SK)); env.hash.calls.clear(); env.hash.dry = true; begin((uint64_t) op.arg(0), op.s);
+        R.jv_lq_encrypt(view, ct, mem, symlen, params, d->id, jv_hash_cb, jv_rand_cb); drawn("encrypt");
+        bool ok1 = env.hash.calls.size() == 1 && env.hash.calls[0].outlen == symlen; std::vector<uint8_t> hashed = env.hash.calls.empty() ? std::vector<uint8_t>() : env.hash.calls[0].in; size_t asked1 = env.hash.calls.empty() ? 0 : env.hash.calls[0].outlen;
+        env.hash.calls.clear(); env.lib_calls += 2; R.jv_lq_keygen(view, sk, msk, d->id); R.jv_lq_decrypt(view, mem, symlen, ct, sk, d->id, jv_hash_cb);
+        bool ok2 = env.hash.calls.size() == 1 && env.hash.calls[0].outlen == symlen; bool same = !env.hash.calls.empty() && env.hash.calls[0].in == hashed; size_t asked2 = env.hash.calls.empty() ? 0 : env.hash.calls[0].outlen;
+        env.hash.dry = false; munmap(mem, symlen + 4096);
+        env.count("probe:key_length_beyond_32_bits"); env.logf("LQENCHUGE ok%d%d same%d", ok1, ok2, same);
+        env.check(ok1, "C16", "outlen:forwarded-unchanged", strf("encrypt asked the hash function for %zu bytes, caller requested %zu", asked1, symlen));
+        env.check(ok2, "C16", "outlen:forwarded-unchanged", strf("decrypt asked the hash function for %zu bytes, caller requested %zu", asked2, symlen));
+        env.check(same, "C16", "decrypt:same-hashed-bytes", "decryption fed the hash function different bytes than encryption did (key length beyond 32 bits)");
+        env.add_case("lqenc huge", true);
+    }
     void op_dec(const Op& op) {
         if (cts.empty()) return; Ct& c = cts[(size_t) op.arg(0) % cts.size()]; int variant = (int) op.arg(1) % 6;
         if (Bn::mod(c.s, K().r) != Bn::mod(s_raw, K().r)) return;     // the PKG has changed its master key since: not the same system
@@ -186,7 +205,7 @@ struct LqRun {
         for (size_t i = 0; i < plan.ops.size(); i++) {
             const Op& op = plan.ops[i]; env.step = (int) i + 1;
             if (op.kind == "ID") op_id(op); else if (op.kind == "MSKHOP") op_mskhop(op); else if (op.kind == "KEYGEN") op_keygen(op);
-            else if (op.kind == "ENC") op_enc(op); else if (op.kind == "DEC") op_dec(op); else if (op.kind == "HOP") op_hop(op);
+            else if (op.kind == "ENC") op_enc(op); else if (op.kind == "ENCHUGE") op_enchuge(op); else if (op.kind == "DEC") op_dec(op); else if (op.kind == "HOP") op_hop(op);
         }
     }
 };
@@ -216,6 +235,7 @@ struct LqScenario : Scenario {
             if (k == 0) p.ops.push_back({"ID", {}, {rhex(r, 48)}});
             else if (k == 1) { Op o{"MSKHOP", {r.chance(1, 2), r.chance(1, 2)}, {}}; int m = r.range(0, 4); if (m == 1) o.s.push_back(strf("flip:%d:%d", r.range(28, 31), r.range(4, 7))); else if (m == 2) o.s.push_back("ge_r"); else if (m == 3) o.s.push_back("max"); else if (m == 4) o.s.push_back(strf("set:31:%d", r.range(0x74, 0xFF))); p.ops.push_back(o); }
             else if (k <= 3) p.ops.push_back({"KEYGEN", {(int64_t) r.below(8)}, {}});
+            else if (k == 6 && r.chance(1, 12)) p.ops.push_back({"ENCHUGE", {ss, (int64_t) r.below(8)}, {}});
             else if (k <= 6) { Op o{"ENC", {ss, (int64_t) r.below(8), (int64_t) r.below(6)}, {}}; if (r.chance(1, 3)) o.s.push_back(sf[r.below(6)]); p.ops.push_back(o); }
             else if (k <= 9) p.ops.push_back({"DEC", {(int64_t) r.below(8), (int64_t) r.below(6), r.chance(1, 2), (int64_t) r.below(512)}, {}});
             else { Op o{"HOP", {(int64_t) r.below(4), (int64_t) r.below(8), r.chance(1, 2), r.chance(2, 3)}, {}}; int m = r.range(0, 3); if (m == 1) o.s.push_back(strf("elem:%d:%s:%llu", (int) r.below(2), invalid_kinds()[r.below(invalid_kinds().size())].c_str(), (unsigned long long) (r.next() >> 8))); else if (m == 2) o.s.push_back(strf("flip:%d:%d", (int) r.below(192), r.range(0, 7))); p.ops.push_back(o); }
